@@ -35,6 +35,7 @@ Fails(c, s) ==
     [] c.kind = "pattern" -> C01PatternFails(c)
     [] c.kind = "opcode"  -> C01OpCodeFails(c)
     [] c.kind = "hist"    -> HistFails(c, s)
+    [] c.kind = "connectwide" -> C10WideFails(c)
     [] c.kind = "partial" -> C15Fails(c)
     [] c.kind = "minimize" -> C04Fails(c)
     [] c.kind = "arith"   -> ArithFails(c)
